@@ -160,20 +160,20 @@ if (index < 0) {
   return list.data[index];
 }
 
-template <typename T>
-void __redu_list_append(__redu_list<T> &list, const T &value) {
+template <typename T, typename V>
+void __redu_list_append(__redu_list<T> &list, const V &value) {
   T *next = new T[list.size + 1];
   for (size_t i = 0; i < list.size; ++i) {
     next[i] = list.data[i];
   }
-  next[list.size] = value;
+  next[list.size] = static_cast<T>(value);
   delete[] list.data;
   list.data = next;
   ++list.size;
 }
 
-template <typename T>
-void __redu_list_remove(__redu_list<T> &list, const T &value) {
+template <typename T, typename V>
+void __redu_list_remove(__redu_list<T> &list, const V &value) {
   if (list.size == 0) {
     return;
   }
